@@ -643,6 +643,99 @@ fn accounting_concurrent(ctx: &Ctx, acc: &Accum, rounds: u64) -> Option<i32> {
     None
 }
 
+/// C04 at the socket: a server with three listener threads (memcrsd's current-thread structure),
+/// six connections pipelining increments of one counter and appends to one item.
+fn rmw_over_tcp(ctx: &Ctx, acc: &Accum, per_client: usize) -> Option<i32> {
+    use crate::l3::{Client, ServerOpts};
+    use std::io::Write;
+    for (listeners, workers) in [(3usize, 0usize), (1, 2)] {
+        let server = match crate::netpipe::start_server(ServerOpts { listeners, workers, ..ServerOpts::default() }) {
+            Ok(s) => s,
+            Err(e) => {
+                acc.note(format!("tcp rmw phase skipped: {}", e));
+                return None;
+            }
+        };
+        let clients = 6usize;
+        let port = server.port;
+        let _ = server.side_exec(&Cmd::set(b"tl", b"", 0, 0).frame());
+        let results: Vec<Option<Vec<u64>>> = std::thread::scope(|s| {
+            let hs: Vec<_> = (0..clients)
+                .map(|ci| {
+                    s.spawn(move || -> Option<Vec<u64>> {
+                        let mut c = Client::connect(port).ok()?;
+                        let _ = c.sock.set_nonblocking(false);
+                        let mut stream = vec![];
+                        for i in 0..per_client {
+                            wire::counter(wire::INCR, b"tc", 2, 0, 0, (ci * per_client + i) as u32, 0).write_to(&mut stream);
+                            if i < 40 {
+                                wire::concat(wire::APPENDQ, b"tl", format!("[{}.{}]", ci, i).as_bytes(), 0x9000_0000, 0).write_to(&mut stream);
+                            }
+                        }
+                        wire::simple(wire::NOOP, crate::netpipe::SENTINEL).write_to(&mut stream);
+                        c.sock.write_all(&stream).ok()?;
+                        if !c.read_until(Duration::from_secs(30), |c| c.has_opaque(crate::netpipe::SENTINEL)) {
+                            return None;
+                        }
+                        let v = c
+                            .resps
+                            .iter()
+                            .filter(|r| r.opcode == wire::INCR && r.status == 0 && r.value.len() == 8)
+                            .map(|r| {
+                                let mut b = [0u8; 8];
+                                b.copy_from_slice(&r.value);
+                                u64::from_be_bytes(b)
+                            })
+                            .collect();
+                        c.reset_close();
+                        Some(v)
+                    })
+                })
+                .collect();
+            hs.into_iter().map(|h| h.join().unwrap_or(None)).collect()
+        });
+        if results.iter().any(|r| r.is_none()) {
+            acc.note("tcp rmw phase: a client did not complete (inconclusive)");
+            continue;
+        }
+        let mut all: Vec<u64> = results.into_iter().flatten().flatten().collect();
+        let n = all.len();
+        all.sort();
+        all.dedup();
+        let total = clients * per_client;
+        acc.evaluations.fetch_add(total as u64, Ordering::Relaxed);
+        acc.count("stress_tcp_incr_ops", total as u64);
+        let fin = server.side_get(b"tc").map(|r| String::from_utf8_lossy(&r.value).to_string()).unwrap_or_default();
+        let expect_final = (2 * (total - 1)).to_string();
+        if n != total || all.len() != total || fin != expect_final {
+            return Some(violation(
+                ctx,
+                "increments_lost_over_tcp",
+                format!(
+                    "server with {} listener thread(s) / {} runtime workers: {} connections x {} pipelined incr by 2 on one counter: {} acknowledged, {} distinct values, final value {:?} (expected {} distinct, final {})",
+                    listeners, workers, clients, per_client, n, all.len(), fin, total, expect_final
+                ),
+                json!({"scenario": "rmw_over_tcp", "listeners": listeners, "workers": workers}),
+            ));
+        }
+        let log = server.side_get(b"tl").map(|r| String::from_utf8_lossy(&r.value).to_string()).unwrap_or_default();
+        for ci in 0..clients {
+            for i in 0..40.min(per_client) {
+                let tag = format!("[{}.{}]", ci, i);
+                if log.matches(&tag).count() != 1 {
+                    return Some(violation(
+                        ctx,
+                        "append_lost_over_tcp",
+                        format!("server with {} listener thread(s): fragment {} appears {} times after concurrent appends from {} connections", listeners, tag, log.matches(&tag).count(), clients),
+                        json!({"scenario": "rmw_over_tcp", "listeners": listeners}),
+                    ));
+                }
+            }
+        }
+    }
+    None
+}
+
 pub fn phase(ctx: &Ctx, acc: &Accum, prop: &str) -> Option<i32> {
     let t0 = Instant::now();
     let q = ctx.quick();
@@ -651,7 +744,7 @@ pub fn phase(ctx: &Ctx, acc: &Accum, prop: &str) -> Option<i32> {
             .or_else(|| same_token_rounds(ctx, acc, if q { 300 } else { 5000 }))
             .or_else(|| expired_restore(ctx, acc, if q { 300 } else { 5000 }))
             .or_else(|| absent_cas_vs_plain(ctx, acc, if q { 60_000 } else { 1_500_000 })),
-        "C04" => rmw(ctx, acc, if q { 2_000 } else { 20_000 }, if q { 200 } else { 3000 }),
+        "C04" => rmw(ctx, acc, if q { 2_000 } else { 20_000 }, if q { 200 } else { 3000 }).or_else(|| rmw_over_tcp(ctx, acc, if q { 400 } else { 4000 })),
         "C16" => progress(ctx, acc, if q { 4 } else { 30 }),
         "C15" => accounting_concurrent(ctx, acc, if q { 3000 } else { 60_000 }),
         "C14" => eviction_bound(ctx, acc, if q { 3 } else { 60 }),
